@@ -137,7 +137,7 @@ def _leaf_plans(state, cfg_variant):
                 continue
             p = base + [aclkey, "acl"]
             for slot in (0, 1, len(rules) - 1):
-                for shape in ("listed", "unlisted-ip", "unlisted-port", "unlisted-wildcard", "none-fields"):
+                for shape in ("listed", "last-listed-wildcard", "unlisted-ip", "unlisted-port", "unlisted-wildcard", "none-fields"):
                     for action in E["acl_action"]:
                         def rule(st, val, p=p, slot=slot, shape=shape, action=action):
                             d = st
@@ -146,6 +146,10 @@ def _leaf_plans(state, cfg_variant):
                             r = {"uuid": "x", "action": action, "protocol": "tcp", "src_ip_address": HE.IPS["client_1"],
                                  "src_wildcard_mask": "0.0.0.1", "src_port": 80, "dst_ip_address": HE.IPS["database_server"],
                                  "dst_wildcard_mask": None, "dst_port": 5432, "match_count": 0}
+                            if shape == "last-listed-wildcard":
+                                wl = [g for g in HE.GEN if g["name"] == cfg_variant][0].get("wildcards", ["0.0.0.1", "0.0.0.255"])
+                                r["src_wildcard_mask"] = wl[-1]
+                                r["dst_wildcard_mask"] = wl[-1]
                             if shape == "unlisted-ip":
                                 r["src_ip_address"] = "10.9.9.9"
                                 r["dst_ip_address"] = "10.9.9.8"
@@ -192,10 +196,12 @@ def _context(vname):
         return _CTX[vname]
     from primaite.game.game import PrimaiteGame
 
-    v = [g for g in HE.GEN if g["name"] == vname][0]
-    game = PrimaiteGame.from_config(copy.deepcopy(HE.gen_scenario(v)))
-    state = game.get_sim_state()
-    _CTX[vname] = (game, state)
+    # every variant is built, in a fixed order, in every process: observation objects of differently configured scenarios
+    # living in one process must not influence each other's declared space (and detection must not depend on task order)
+    for v in sorted(HE.GEN, key=lambda g: (len(g.get("wildcards", [0, 0])), g["name"])):
+        game = PrimaiteGame.from_config(copy.deepcopy(HE.gen_scenario(v)))
+        _ = game.agents["defender"].observation_manager.space
+        _CTX[v["name"]] = (game, game.get_sim_state())
     return _CTX[vname]
 
 
